@@ -47,6 +47,16 @@ func leafTexts(v reflect.Value, out *[]string, name string) {
 			leaf = false
 			leafTexts(v.Field(i), out, name+"."+ft.Name)
 		}
+		if !leaf {
+			// a composite element (e.g. `@performance()` with an empty target list) is
+			// recorded by its presence; its text may legitimately be re-laid out
+			if f := v.FieldByName("Range"); f.IsValid() && f.Type() == rangeType {
+				r := f.Interface().(directives.Range)
+				if !(r.Text == "" && r.Start == 0 && r.End == 0) && r.End > r.Start {
+					*out = append(*out, name+":present")
+				}
+			}
+		}
 		if leaf {
 			if f := v.FieldByName("Range"); f.IsValid() {
 				r := f.Interface().(directives.Range)
